@@ -796,7 +796,10 @@ class Context:
                 self._last_model_solver = fs
             if res != z3.unknown:
                 break
-        self.stats["solver_s"] += time.time() - t
+        dt_ = time.time() - t
+        self.stats["solver_s"] += dt_
+        if dt_ > self.stats.get("max_query_s", 0.0):
+            self.stats["max_query_s"] = dt_
         return res
 
     def _small_model(self, z, m):
